@@ -3,7 +3,7 @@ sys.path.insert(0, os.path.dirname(os.path.abspath(__file__)))
 import _ntt_common as nc
 import props
 
-OPS = ("nttfwd", "nttinv", "roundtrip", "roundtrip2", "nttlin", "tab")
+OPS = ("nttfwd", "nttinv", "roundtrip", "roundtrip2", "nttlin", "tab", "permtab")
 
 
 def streams(ctx, res):
